@@ -22,10 +22,14 @@ type idArg struct {
 	Lo uint64 `json:"lo"`
 }
 
-func typed(err error) bool {
+// typedFor: the parse error is typed by the kind of input that was passed
+func typedFor(err error, bytesInput bool) bool {
+	if bytesInput {
+		var b *uu.ParseError[[]byte]
+		return errors.As(err, &b)
+	}
 	var a *uu.ParseError[string]
-	var b *uu.ParseError[[]byte]
-	return errors.As(err, &a) || errors.As(err, &b)
+	return errors.As(err, &a)
 }
 
 func probeID(a idArg) (string, string) {
@@ -36,6 +40,14 @@ func probeID(a idArg) (string, string) {
 	}
 	if b, err := uu.DefaultFormatter(nil, id, uu.FormatURN); err != nil || string(b) != "urn:uuid:"+want {
 		return "format_urn", fmt.Sprintf("DefaultFormatter(URN) = %q, %v", b, err)
+	}
+	for _, spare := range []int{1, 35, 36, 37, 44, 45, 46, 64, 100} { // the text must not depend on the destination buffer's spare capacity
+		if b, err := uu.DefaultFormatter(make([]byte, 0, spare), id, 0); err != nil || string(b) != want {
+			return "format_with_spare_capacity", fmt.Sprintf("DefaultFormatter(make([]byte,0,%d)) = %q, %v; want %q", spare, b, err, want)
+		}
+		if b, err := uu.DefaultFormatter(make([]byte, 0, spare), id, uu.FormatURN); err != nil || string(b) != "urn:uuid:"+want {
+			return "format_with_spare_capacity", fmt.Sprintf("DefaultFormatter(make([]byte,0,%d), URN) = %q, %v", spare, b, err)
+		}
 	}
 	if b, err := id.MarshalText(); err != nil || string(b) != want {
 		return "marshaltext", fmt.Sprintf("MarshalText = %q, %v; want %q", b, err, want)
@@ -64,7 +76,7 @@ func probeID(a idArg) (string, string) {
 						return "parse_back", fmt.Sprintf("DefaultParser[%d](%q, rule=%d) = %v, %v; want %v", k, t, rule, res.g, res.e, id)
 					}
 				} else {
-					if res.e == nil || res.g != (uu.ID{}) || !typed(res.e) {
+					if res.e == nil || res.g != (uu.ID{}) || !typedFor(res.e, k == 1) {
 						return "disabled_form_accepted", fmt.Sprintf("DefaultParser[%d](%q, rule=%d) = %v, %v; the form is disabled by the rule", k, t, rule, res.g, res.e)
 					}
 				}
@@ -126,17 +138,41 @@ func probeFlight(p flightArg) (string, string) {
 }
 
 type txtArg struct {
-	In   mc.Bin `json:"in"`
-	Rule int    `json:"rule"`
+	In       mc.Bin  `json:"in"`
+	Rule     int     `json:"rule"`
+	Prev     *mc.Bin `json:"previous_call,omitempty"` // history of depth 2: parsed first, on the buffer that is then reused for In
+	PrevRule int     `json:"previous_rule,omitempty"`
+	PrevVia  int     `json:"previous_via,omitempty"` // the single previous call: 0 DefaultParser[[]byte] on the shared buffer, 1 DefaultParser[string], 2 UnmarshalText on the shared buffer
 }
 
 func probeText(a txtArg) (string, string) {
 	in := []byte(a.In)
 	cls, hi, lo := oracle.UUIDParse(in, a.Rule&int(uu.RuleDisableURN) != 0, a.Rule&int(uu.RuleDisableUpperCaseDigits) != 0)
 	want := uu.ID{Higher: hi, Lower: lo}
-	g1, e1 := uu.DefaultParser(string(in), uu.Rule(a.Rule))
 	cp := append([]byte(nil), in...)
-	g2, e2 := uu.DefaultParser(cp, uu.Rule(a.Rule))
+	if a.Prev != nil {
+		buf := make([]byte, 0, 128)
+		buf = append(buf, *a.Prev...)
+		switch a.PrevVia {
+		case 0:
+			_, _ = uu.DefaultParser(buf, uu.Rule(a.PrevRule))
+		case 1:
+			_, _ = uu.DefaultParser(string(*a.Prev), uu.Rule(a.PrevRule))
+		default:
+			var id uu.ID
+			_ = id.UnmarshalText(buf)
+		}
+		cp = append(buf[:0], in...) // the same backing array, overwritten in place
+	}
+	var g1, g2 uu.ID
+	var e1, e2 error
+	if a.Prev != nil { // history: the reused buffer is parsed first, directly after the previous call
+		g2, e2 = uu.DefaultParser(cp, uu.Rule(a.Rule))
+		g1, e1 = uu.DefaultParser(string(in), uu.Rule(a.Rule))
+	} else {
+		g1, e1 = uu.DefaultParser(string(in), uu.Rule(a.Rule))
+		g2, e2 = uu.DefaultParser(cp, uu.Rule(a.Rule))
+	}
 	rs := []struct {
 		g uu.ID
 		e error
@@ -169,8 +205,8 @@ func probeText(a txtArg) (string, string) {
 			if res.g != (uu.ID{}) {
 				return "nonzero_result_with_error", fmt.Sprintf("path %d: parse(%q) = %v with %v", k, in, res.g, res.e)
 			}
-			if !typed(res.e) {
-				return "untyped_error", fmt.Sprintf("path %d: parse(%q): %T %v", k, in, res.e, res.e)
+			if !typedFor(res.e, k >= 1) {
+				return "untyped_error", fmt.Sprintf("path %d: parse(%q): %T %v is not a *uu.ParseError of the input's type", k, in, res.e, res.e)
 			}
 		}
 	}
@@ -187,7 +223,7 @@ func main() {
 		pid := mc.NewProbe(r, "id", nil, probeID)
 		ptx := mc.NewProbe(r, "text", nil, probeText)
 		r.Assume("reference: positional 8-4-4-4-12 big-endian table written from the RFC 4122 layout; prefix [uU][rR][nN]:uuid: ; a prefix that differs only in the case of 'uuid' is a don't-care (accept with the right value or reject)")
-		r.Assume("the kind of error is only constrained as far as the statement names it: a typed *uu.ParseError (either instantiation) and a zero ID; which sentinel is wrapped is not judged")
+		r.Assume("the kind of error is only constrained as far as the statement names it: a typed *uu.ParseError (instantiated with the type of the input that was passed) and a zero ID; which sentinel is wrapped is not judged")
 		pfl := mc.NewProbe(r, "two_results_in_flight", nil, probeFlight)
 		bgs := []idArg{{0, 0}, {^uint64(0), ^uint64(0)}, {0x0123456789abcdef, 0xfedcba9876543210}, {0xa5a5a5a5a5a5a5a5, 0xa5a5a5a5a5a5a5a5}, {0x5a5a5a5a5a5a5a5a, 0x5a5a5a5a5a5a5a5a}}
 		r.Phase("each background x {each of 128 bits toggled, each of 32 nibbles set to each of 16 values}: every output path, parse back in 6 renderings x 4 rules x {string,[]byte}, UnmarshalText, Version, Variant", "complete sweeps", func() {
@@ -262,6 +298,26 @@ func main() {
 			})
 		})
 		r.Sample("text", txtArg{In: "urn:uuid:01234567-89ab-cdef-fedc-ba987654321g", Rule: 0})
+		r.Phase("serial: all histories of two parser calls over 16 texts x 4 rules (the second call is judged; the caller reuses one buffer)", "complete for depth 2 over the listed texts", func() {
+			t0 := "01234567-89ab-cdef-fedc-ba9876543210"
+			texts := []string{t0, "01234567-89ab-cdef-fedc-ba9876543211", "01234567-89AB-CDEF-FEDC-BA9876543210", "urn:uuid:" + t0, "URN:uuid:" + t0, "urn:uuid:01234567-89AB-CDEF-FEDC-BA9876543210",
+				"01234567-89ab-cdef-fedc-ba987654321g", "0123456789ab-cdef-fedc-ba9876543210-", "", "x", "urn:uuid:", "urn;uuid:" + t0, "01234567-89ab-cdef-fedc-ba987654321", "ffffffff-ffff-ffff-ffff-ffffffffffff", "00000000-0000-0000-0000-000000000000", "01234567-89ab-cdef-fedc-ba98765432100"}
+			r.Serial(func(w *mc.W) {
+				for _, x := range texts {
+					for rx := 0; rx < 4; rx++ {
+						for _, y := range texts {
+							for ry := 0; ry < 4; ry++ {
+								for via := 0; via < 3; via++ {
+									w.Point()
+									px := mc.Bin(x)
+									ptx.Do(w, txtArg{In: mc.Bin(y), Rule: ry, Prev: &px, PrevRule: rx, PrevVia: via})
+								}
+							}
+						}
+					}
+				}
+			})
+		})
 		alpha := []byte("-0a9fFgG:/ @`\x00Au \xff\n")
 		if !r.Quick() {
 			alpha = mc.AllBytes
